@@ -126,7 +126,9 @@ def precondition(s, noise, bond_threshold=0.65, overlap_threshold=-0.6, base=0.1
 
 @st.composite
 def presentations(draw, permute=True):
-    return {"quat": draw(st.lists(gc.ffloat(-1.0, 1.0), min_size=4, max_size=4)), "trans": [draw(gc.ffloat(-5.0, 5.0)) for _ in range(3)],
+    far = draw(st.integers(0, 3)) == 0      # a quarter of the presentations move the crystal far away from its cell (rigid translations are unbounded)
+    tr = gc.ffloat(-40.0, 40.0) if far else gc.ffloat(-5.0, 5.0)
+    return {"quat": draw(st.lists(gc.ffloat(-1.0, 1.0), min_size=4, max_size=4)), "trans": [draw(tr) for _ in range(3)],
             "perm": draw(seeds) if permute else None, "noise_seed": draw(seeds), "sbc_seed": draw(st.integers(0, 10 ** 6))}
 
 
